@@ -113,6 +113,8 @@ SpkLayouts == [
   B6 |-> Lay({"pl", "ph"}, {}, {"A10", "A11"}, {PR("p1", ""), PR("p2", "a")}),
   B7 |-> Lay({"pl", "ph"}, {}, {"A10", "A11"}, {PR("p1", "a"), PR("p2", "")}),
   B8 |-> Lay({"pl", "ph"}, {}, {"A15", "A16"}, {PR("p1", ""), PR("p2", "")}),
+  \* as B4 with peer p2 removed (the configurations differ in the peers only)
+  B10 |-> Lay({"pl", "ph"}, {}, {"A1"}, {PR("p1", "")}),
   BZ |-> Lay({"pz"}, {}, {"A6"}, {PR("p1", "")}),
   \* layer 2 and BGP
   C1 |-> Lay({"pw"}, {"X1"}, {"A7"}, {PR("p1", "")}),
@@ -126,6 +128,8 @@ SpkLayouts == [
   C8 |-> Lay({"pw"}, {"X1"}, {"A8"}, {PR("p1", "")}),
   C9 |-> Lay({"pw"}, {"X1"}, {"A17"}, {PR("p1", "")}),
   C10 |-> Lay({"pw"}, {"X2"}, {"A7"}, {PR("p1", "")}),
+  \* every peer has a node selector: the node may have no session at all
+  C12 |-> Lay({"pw"}, {"X1"}, {"A7"}, {PR("p1", "a")}),
   \* all interfaces for the OTHER nodes, named interfaces for the nodes labelled a
   C11 |-> Lay({"pw"}, {"X9", "X2"}, {}, {}),
   \* layer 2 only
